@@ -186,6 +186,11 @@ class Instrs(CallsMixin):
         self.zero_ghosts(st, loc, et, 0)
         # private until its address is stored or handed to unknown code (see escape())
         st.locals.append(loc)
+        if fr is self.cx.top and ins.get('name') in self.cx.const_allocs():
+            # a variable captured by closures that none of them (nor this function) ever assigns:
+            # its cell keeps its value whatever is called
+            self.cx._const_ids.add(ref.get_id())
+            self.cx._const_keep.append(ref)
         self.setreg(st, ins, v)
         if ins.get('comment') and fr is self.cx.top:
             st.names.setdefault(ins['comment'], ('addr', ins['name']))
@@ -591,8 +596,9 @@ class Instrs(CallsMixin):
         if not terms:
             return
         keep = []
+        const = self.cx.const_cell_ids()
         for l in st.locals:
-            if any(t.eq(l.ref) for t in terms):
+            if any(t.eq(l.ref) for t in terms) and l.ref.get_id() not in const:
                 continue
             keep.append(l)
         st.locals = keep
@@ -1144,7 +1150,23 @@ class Instrs(CallsMixin):
             st.type_facts(v)
             st.regs[ins['name']] = v
         # call counters: an unknown number of further calls may have happened
+        # (only of the callees the loop body can call directly: counters count static calls made
+        # in the body of the function under contract itself)
+        called = set()
+        if fr is self.cx.top:
+            from .program import normfn
+            for bi in fr.cfg.loops[h]:
+                for ins2 in fr.cfg.blocks[bi]['instrs']:
+                    c2 = ins2.get('call') if ins2.get('op') in ('Call', 'Defer', 'Go') else None
+                    if not c2:
+                        continue
+                    if 'invoke' in c2:
+                        called.add('invoke ' + str(c2.get('iface')) + '.' + str(c2.get('invoke')))
+                    elif (c2.get('fn') or {}).get('k') == 'func':
+                        called.add(normfn(c2['fn']['name']))
         for pat in self.cx.call_patterns:
+            if not any(pat in nm for nm in called):
+                continue
             k = 'calls:' + pat
             old = st.ghost.get(k, z3.IntVal(0))
             nv = z3.Int(fresh_name('ncalls'))
